@@ -1,7 +1,7 @@
 #!/bin/bash
 # Thorough-tier supplement: coverage-guided fuzzing of the byte-level targets of one property.
 #   fuzz/run.sh <ID> <SEED>
-# Each target runs on JOBS parallel libFuzzer processes (fresh corpus directories seeded with the committed
+# Each target runs under one libFuzzer supervisor in fork mode with JOBS children (fresh corpus directory seeded with the committed
 # golden corpus, -seed derived from VERIF_SEED) for YQV_FUZZ_SECONDS (default 240) seconds.  The oracle runs
 # inside the target; a crash artifact is converted into a normal replay file by `yqv <ID> --fuzz-artifact`.
 set -u
@@ -30,28 +30,27 @@ rc=0
 total=0
 stalled=0
 for t in $TARGETS; do
-    for j in $(seq 1 "$JOBS"); do
-        mkdir -p "$WORK/$t/corpus$j" "$WORK/$t/art$j"
-        [ -d "$HERE/seeds/$t" ] && cp "$HERE/seeds/$t"/* "$WORK/$t/corpus$j/" 2>/dev/null
-        "$BIN/$t" "$WORK/$t/corpus$j" -seed=$((SEED * 1000 + j)) -max_total_time="$SECS" -len_control=0 -max_len=400 -timeout=30 \
-            -artifact_prefix="$WORK/$t/art$j/" -print_final_stats=1 >"$WORK/$t/log$j" 2>&1 &
-    done
-    wait
-    for j in $(seq 1 "$JOBS"); do
-        n=$(grep -a "stat::number_of_executed_units" "$WORK/$t/log$j" | awk '{print $2}')
-        total=$((total + ${n:-0}))
-        for a in "$WORK/$t/art$j"/crash-* "$WORK/$t/art$j"/timeout-* "$WORK/$t/art$j"/oom-*; do
-            [ -e "$a" ] || continue
-            # A timeout-* artifact is almost always a stall of the byte decoder (proptest's PassThrough RNG
-            # returns zeros once its stream is used up and rejection sampling then spins), not of the library:
-            # the conversion is given 90 s; if it stalls too, or if the case passes the oracle when replayed,
-            # the artifact is counted and kept, but it is not a verdict.
-            timeout -k 5 90 "$ROOT/target/opt/yqv" "$ID" --fuzz-artifact "$t" "$a"
-            r=$?
-            case "$(basename "$a")" in timeout-*|oom-*) if [ $r -ne 1 ]; then stalled=$((stalled + 1)); r=0; fi ;; esac
-            if [ $r -eq 124 ] || [ $r -eq 137 ]; then stalled=$((stalled + 1)); r=0; fi
-            if [ $r -eq 1 ]; then rc=1; elif [ $r -ne 0 ] && [ $rc -eq 0 ]; then rc=$r; fi
-        done
+    # One libFuzzer supervisor per target in fork mode: JOBS child processes share a corpus, and a timeout or
+    # out-of-memory input (almost always a stall of the byte decoder, see below) does not end the campaign;
+    # a crash (= oracle failure inside the target) does.
+    mkdir -p "$WORK/$t/corpus" "$WORK/$t/art"
+    [ -d "$HERE/seeds/$t" ] && cp "$HERE/seeds/$t"/* "$WORK/$t/corpus/" 2>/dev/null
+    "$BIN/$t" "$WORK/$t/corpus" -seed=$((SEED * 1000 + 1)) -max_total_time="$SECS" -len_control=0 -max_len=400 -timeout=10 \
+        -fork="$JOBS" -ignore_timeouts=1 -ignore_ooms=1 -ignore_crashes=0 \
+        -artifact_prefix="$WORK/$t/art/" >"$WORK/$t/log" 2>&1
+    n=$(grep -a -o "^#[0-9]*: cov" "$WORK/$t/log" | tail -1 | tr -dc 0-9)
+    total=$((total + ${n:-0}))
+    for a in "$WORK/$t/art"/crash-* "$WORK/$t/art"/timeout-* "$WORK/$t/art"/oom-*; do
+        [ -e "$a" ] || continue
+        # A timeout-* artifact is almost always a stall of the byte decoder (proptest's PassThrough RNG
+        # returns zeros once its stream is used up and rejection sampling then spins), not of the library:
+        # the conversion is given 90 s; if it stalls too, or if the case passes the oracle when replayed,
+        # the artifact is counted and kept, but it is not a verdict.
+        timeout -k 5 90 "$ROOT/target/opt/yqv" "$ID" --fuzz-artifact "$t" "$a"
+        r=$?
+        case "$(basename "$a")" in timeout-*|oom-*) if [ $r -ne 1 ]; then stalled=$((stalled + 1)); r=0; fi ;; esac
+        if [ $r -eq 124 ] || [ $r -eq 137 ]; then stalled=$((stalled + 1)); r=0; fi
+        if [ $r -eq 1 ]; then rc=1; elif [ $r -ne 0 ] && [ $rc -eq 0 ]; then rc=$r; fi
     done
 done
 # record what the campaign covered in the evidence file of the thorough run
